@@ -72,7 +72,8 @@ def oracle(chk, inp, msgs, classes_seq, quick, rng):
 def run(chk, drv):
     quick = chk.tier == "quick"
     rng = chk.rng
-    chk.extra["rule"] = ("sequences of 0..6 messages of mixed types from a random schema (empty messages, messages parsed with unknown fields, "
+    length_sweep(chk, drv)
+    chk.extra["rule"] = ("messages whose encoded length sits on every boundary of the length prefix (0, 127/128, 256, 16383/16384, …); sequences of 0..6 messages of mixed types from a random schema (empty messages, messages parsed with unknown fields, "
                          "default-but-present optional members) written with dump(SIZE_DELIMITED); read back by successive loads, by an older-schema reader, "
                          "and at every cut point (quick: ≤ 40 cut points per stream). non-trivial = stream with ≥ 1 message; distinct by (schema, stream)")
     nb = 60 if quick else 500
@@ -126,8 +127,11 @@ def run(chk, drv):
                 pos = 0
                 for v, m, ci, end in zip(vals, msgs, cis, ends):
                     r = drv.ask1("LOADD %s %d %s" % (b.sid, ci, W.hexs(data[pos:])))
-                    m3 = b.classes[ci]().load(io.BytesIO(data[pos:]), betterproto.SIZE_DELIMITED)
-                    want = "%s | %s | %d" % (bpgen.obs_msg(m3, b.schema, ci), W.hexs(bytes(m3)), len(data) - end)
+                    try:
+                        m3 = b.classes[ci]().load(io.BytesIO(data[pos:]), betterproto.SIZE_DELIMITED)
+                        want = "%s | %s | %d" % (bpgen.obs_msg(m3, b.schema, ci), W.hexs(bytes(m3)), len(data) - end)
+                    except Exception as e:
+                        want = "ERR " + repr(e)
                     if r != want:
                         chk.disagree("delimited-load", {"schema": b.schema_line(), "stream": data[pos:].hex(), "cls": ci}, r, want)
                     pos = end
@@ -141,6 +145,50 @@ def run(chk, drv):
                         want = "ERR"
                     if is_err(r) != (want == "ERR"):
                         chk.disagree("delimited-load-cut", {"schema": b.schema_line(), "stream": data[:cut].hex()}, r, want)
+
+
+def length_sweep(chk, drv):
+    """messages whose encoded length sits on every boundary of the varint length prefix"""
+    schema = [bpgen.M("L", [bpgen.F("p", 1, "bytes"), bpgen.F("i", 2, "int32")]), bpgen.M("O", [bpgen.F("i", 2, "int32")])]
+    L, O = bpgen.build_bp(schema)
+    if drv:
+        assert drv.ask1(bpgen.schema_line("lsw", schema)) == "ok"
+    targets = sorted({t + d for t in (0, 127, 128, 256, 384, 16383, 16384, 16512, 32768) for d in (-2, -1, 0, 1, 2) if t + d >= 0})
+    if chk.tier != "quick":
+        targets = sorted(set(targets) | set(range(0, 600)) | {2097151, 2097152, 2097153})
+    for t in targets:
+        # choose the payload so that len(bytes(m)) == t
+        n = max(t - 3, 0)
+        m = L(p=b"x" * n)
+        while len(bytes(m)) < t:
+            n += 1
+            m = L(p=b"x" * n)
+        while len(bytes(m)) > t and n > 0:
+            n -= 1
+            m = L(p=b"x" * n)
+        if len(bytes(m)) != t:
+            continue
+        msgs = [m, L(i=7), m]
+        inp = {"schema": [[f.line() for f in mm.fields] for mm in schema], "values": ["L(p=b'x'*%d)" % n, "L(i=7)", "same"],
+               "classes": [0, 0, 0], "bytes": [bytes(x).hex() for x in msgs]}
+        chk.case("lsw %d" % t, True, {"body_length": t})
+        chk.count("length_sweep")
+        data, ends = oracle(chk, inp, msgs, [L, L, L], True, chk.rng)
+        if data is None:
+            continue
+        # older reader: everything but field 2 is unknown to it
+        res = read_stream([O, O, O], data)
+        if len(res) != 3 or any(r[0] != "ok" for r in res) or [r[2] for r in res] != ends:
+            chk.fail("older-reader-fails-on-stream", inp, repr([(r[0], r[2]) for r in res]))
+        if drv:
+            r = drv.ask1("LOADD lsw 0 %s" % W.hexs(data))
+            try:
+                m3 = L().load(io.BytesIO(data), betterproto.SIZE_DELIMITED)
+                want = "%s | %s | %d" % (bpgen.obs_msg(m3, schema, 0), W.hexs(bytes(m3)), len(data) - ends[0])
+            except Exception as e:
+                want = "ERR " + repr(e)
+            if r != want:
+                chk.disagree("delimited-load length sweep", {"body_length": t}, r[:120], want[:120])
 
 
 def _d12_size0():
